@@ -502,6 +502,19 @@ def guarded(fn, case):
 def prims(spec):
     out = []
     for kind, hx in spec:
+        if kind == "origin":          # _url_to_origin on one Origin value + what urlsplit reports for it (computed separately)
+            s = bytes.fromhex(hx).decode("latin-1")
+            try:
+                r = P._url_to_origin(s)
+                r = "null" if r == "null" else [cps(r[0]), cps(r[1]), r[2]]
+            except ValueError:
+                r = None
+            out.append([kind, hx, {"us": o_split(s), "res": r}]); continue
+        if kind == "sameorigin":      # _is_same_origin on a triple and an allow-list (hx = JSON in hex)
+            q = json.loads(bytes.fromhex(hx).decode())
+            from autobahn.util import wildcards2patterns
+            trip = "null" if q["origin"] == "null" else (q["origin"][0], q["origin"][1], q["origin"][2])
+            out.append([kind, hx, bool(P._is_same_origin(trip, "http", 80, wildcards2patterns(q["allowed"])))]); continue
         b = bytes.fromhex(hx)
         s = b.decode("latin-1")
         if kind == "splitlines": out.append([kind, hx, [cps(x) for x in s.splitlines()]])
